@@ -185,7 +185,9 @@ class TreeFn(Generic[_FnT, _T]):
     # single value outputs. E.g., input_keys='a' gives (some_values, ) up to
     # this point, we need to unwrap it to some_values as the return, thus,
     # skipping the wrapping here because SELF is normalized to (SELF,).
-    output_to_self = self.output_keys[0] == tree.Key.SELF
+    output_to_self = (
+        bool(self.output_keys) and self.output_keys[0] == tree.Key.SELF
+    )
     if output_to_self and len(outputs) > 1:
       outputs = (outputs,)
     return outputs
